@@ -26,9 +26,30 @@
    by K_fixed_domain of harness/props/C14.py, not proved; that what the parser then stores is a well-formed normalised equation
    is proved (C14_normal_form_wellformed), and so is that this normal form is a fixed point (C14_normal_form_reparses).  Findings #20, #22 and the reserved-word parameter name (C14_reserved_word_parameter_refuted)
    are stated as refutations; #24 (unclosed fence) is repaired in /repo (85765d5): C14_unclosed_fence_rejected. *)
+(* WHAT IS PROVED ABOUT WHAT, AND WHAT IS NOT (independent review, 2026-10-02):
+   * The fixed point: C14_normal_form_fixed_point is about token lists q under dq_ok canon.  That the normal form of a SOURCE
+     statement is such a list — parse_equation(denorm(parse_equation(s).equation)) — is C14_normal_form_reparses, for statements
+     NAME[k] = rhs under dq_ok_ws + sep_ok; for other accepted text it rests on K_fixed_domain / the oracle.  Excluded and recorded
+     as findings: reserved-word names ({as}), literal braces ({{ }}), an index bracket spanning the "=" (Y[=1]), backticked periods.
+   * Statement shapes OUTSIDE the image of denorm_text (no statement-level theorem; K_parse_layout + oracle only): blanks between a
+     function name and "(" (`max (X)`: eaten by term_re, the normal form is `max(`), a comment or a blank line on a non-final
+     continuation line, line separators other than "\n" inside round brackets (\r\n, form feed, \x85: ContSplit.cont_scan wants
+     "\n"), a left-hand side other than one NAME[k] (tuple targets), "#" anywhere in the statement (C14_hash_in_quotes_refuted).
+   * Empty versus non-empty gaps: C14_gaps_same_tokens (same terms and symbols, texts equal up to blank tokens); that this is the
+     same Python code rests on the oracle's ast.dump.
+   * (g) statement independence and (h) permutation are proved for parse_model_nocheck (check_syntax=False): C14_parse_model_by_
+     statements (near-definitional: it unfolds parse_model into split + per-statement parse + merge), C14_statements_independent,
+     C14_statements_permute (two blocks; a general permutation composes it with C14_merge_order_irrelevant; "both fail" counts as
+     equal whatever the exceptions).  The checked path (default) has the comment / blank-line theorems only.
+   * Theorems that only unfold a definition or are string lemmas about normalise_template — C14_explicit_zero_index, C14_explicit_
+     zero_spellings (mk_index), C14_whitespace_run_is_one_blank, C14_after_open, C14_before_close — do not by themselves cover a
+     clause: lexing comes first (#20, `max (`); the clauses are covered by the whole-statement theorems C14_fixed_point_any_term_
+     layout, C14_parse_any_blank_runs, C14_whitespace_layout_irrelevant.
+   * K (harness) compares every Symbol field and the exception class with the model; the oracle compares only outcome (accepted /
+     rejected), name / type / lags / leads and ast.dump of the code — no message, no exception class, no string equality. *)
 From Coq Require Import String Ascii List Bool Arith ZArith Permutation.
 Import ListNotations.
-Require Import PyBase PyStr Lex Symbols Split Merge ParseEq ParseModel GLex GLexFacts GNorm Layout LayoutNorm LayoutLex LayoutSplit LayoutScript LayoutAccepted ContSplit MergeComm MergePerm Denorm DenormInt DenormFacts LayoutExamples GraphSrcWf GraphTokWf GraphCanonWf GraphCanonText GraphParseExamples.
+Require Import PyBase PyStr Lex Symbols Split Merge ParseEq ParseModel GLex GLexFacts GNorm Layout LayoutNorm LayoutLex LayoutSplit LayoutScript LayoutAccepted ContSplit MergeComm MergePerm Denorm DenormInt DenormFacts LayoutExamples GraphSrcWf GraphTokWf GraphCanonWf GraphCanonText GraphGapFacts GraphParseExamples.
 Open Scope string_scope.
 
 (* ---- stage 3: whitespace ---- *)
@@ -337,6 +358,36 @@ Theorem C14_normal_form_reparses_satisfiable :
     map (fun s => (sname s, stype s)) s1 <> map (fun s => (sname s, stype s)) s2.
 Proof. exact ex_normal_form_reparses. Qed.
 Print Assumptions C14_normal_form_reparses_satisfiable.
+
+(* EMPTY versus NON-EMPTY GAPS (`Y=X+Z` / `Y = X + Z`, `X**2` / `X ** 2`, `f(a,b)` / `f(a, b)`, a trailing blank).  The normaliser
+   never inserts or removes the last blank of a gap, so the equation / code STRINGS of two such layouts differ (and C14_whitespace_
+   layout_irrelevant does not apply: the normalised token lists differ).  What is proved: the symbol loop of parse_equation does not
+   look into the two texts — run on the same terms with other texts it yields the same symbols field by field (rt replaces the
+   texts only) and raises alike; and two statements with the same NON-BLANK tokens have the same terms, hence the same symbols up
+   to the texts, which are renderings of token lists that agree up to blank tokens.  NOT proved: that such token lists are the same
+   Python token stream — that last step of "the generated code has the same meaning" rests on the oracle's ast.dump(ast.parse(code)). *)
+Theorem C14_symbol_loop_ignores_texts : forall (e c e' c' : string) (terms : list term),
+  equation_symbols e' c' terms = match equation_symbols e c terms with Ret l => Ret (map (rt e' c') l) | Raise x => Raise x end.
+Proof. exact retext_symbols. Qed.
+Print Assumptions C14_symbol_loop_ignores_texts.
+Theorem C14_gaps_same_tokens : forall (lay : layout) (q1 q2 : neq),
+  dq_ok_ws lay q1 = true -> dq_ok_ws lay q2 = true ->
+  strip_blanks (nlhs q1) = strip_blanks (nlhs q2) -> strip_blanks (nrhs q1) = strip_blanks (nrhs q2) ->
+  let T1 := nrm (whole_toks q1) in let T2 := nrm (whole_toks q2) in
+  strip_blanks T1 = strip_blanks T2 /\
+  parse_equation_M (denorm_text lay q1) = of_outcome (equation_symbols (nflat T1) (cflat T1) (lneq_terms lay q1)) /\
+  parse_equation_M (denorm_text lay q2)
+  = of_outcome (match equation_symbols (nflat T1) (cflat T1) (lneq_terms lay q1) with
+                | Ret l => Ret (map (rt (nflat T2) (cflat T2)) l) | Raise x => Raise x end).
+Proof. exact gaps_irrelevant. Qed.
+Print Assumptions C14_gaps_same_tokens.
+Theorem C14_gaps_satisfiable :
+  denorm_text ex_bare_lay ex_gq1 = "Y=X+Z**2" /\ denorm_text ex_bare_lay ex_gq2 = "Y = X + Z ** 2 " /\
+  dq_ok_ws ex_bare_lay ex_gq1 = true /\ dq_ok_ws ex_bare_lay ex_gq2 = true /\
+  strip_blanks (nlhs ex_gq1) = strip_blanks (nlhs ex_gq2) /\ strip_blanks (nrhs ex_gq1) = strip_blanks (nrhs ex_gq2) /\
+  nflat (nrm (whole_toks ex_gq1)) = "Y[t]=X[t]+Z[t]**2" /\ nflat (nrm (whole_toks ex_gq2)) = "Y[t] = X[t] + Z[t] ** 2 ".
+Proof. exact ex_gaps. Qed.
+Print Assumptions C14_gaps_satisfiable.
 
 (* a statement spread over several lines inside round brackets is yielded by the splitter as ONE statement, text unchanged:
    cont_scan 0 E = every newline of E stands inside an open round bracket, no other line separator, brackets balanced *)
